@@ -237,3 +237,35 @@ PROPS["C11"] = {
          "quick": {"shards": 8, "checks": 25}, "thorough": {"shards": 16, "checks": 300, "timeout": 3000}},
     ],
 }
+
+PROPS["C07"] = {
+    "level": "exploration",
+    "technique": "model-based stateful property testing (rapid): leader reports / ISR changes / leadership losses against a reference model of the documented quorum rule, invariants after every request",
+    "level_text": ("sequences of ReportLeader (from any follower, in or out of the ISR, with current or stale (leader, epoch)), ShrinkISR/ExpandISR of followers (current or stale pair), "
+                   "controller leadership losses and, in a 40 ms regime, waits past the expiry timer, against the real metadataAPI of a started single-node controller (real Raft, real FSM); "
+                   "model: a leader change happens at a report iff more than half of the in-sync followers have reported the current (leader, epoch) since the last change/expiry/reset; "
+                   "after every request: stale pairs are refused without effect, the new leader comes from the ISR and is not the old one, leader in ISR subset of replicas, epochs only grow, one leader per leader epoch"),
+    "level_note": "replicas are foreign ids (this server is the controller only); the 40 ms regime discards (inconclusive) cases in which an 'immediate' step took >20 ms instead of guessing which side of the timer it fell on",
+    "rule": "rapid draws 3 or 5 replicas, the timer regime and 3-30 requests. Non-trivial = a completed failover followed by further reports, an ISR change between two reports of one round, a report from a replica outside the ISR, or a timer expiry between reports.",
+    "assumptions": TRUST,
+    "units": [
+        {"name": "C07", "pkg": "server", "test": "TestVerifC07",
+         "quick": {"shards": 8, "checks": 60}, "thorough": {"shards": 16, "checks": 2000, "timeout": 3000}},
+    ],
+}
+
+PROPS["C04"] = {
+    "level": "exploration",
+    "technique": "model-based stateful property testing (rapid): publish bursts / replica progress reports / ISR changes against a real partition leader; every ack is judged against the model's commit state",
+    "level_text": ("one real partition leader (bare server + NATS, real message loop, commit loop and replicators) with replication factor 1 or 3, min ISR 1-3, batch size 1/4/1024, optional optimistic concurrency control; "
+                   "the harness plays the followers (real ReplicationRequest messages carrying their offset) and the controller (ISR shrink/expand applied through Server.apply), and publishes bursts with mixed NONE/LEADER/ALL policies, "
+                   "sizes around the replication limit and expected offsets. After every step all acks the model expects must have arrived and every arrived ack is judged: ALL only once every ISR member reported the offset and |ISR|>=min; "
+                   "LEADER once stored; never for NONE; exactly once; right offset and policy; rejected messages nacked with the right error and absent from the log; at quiescence HW == end of log"),
+    "level_note": "followers are simulated by the harness (their claimed offsets are trusted by the leader, as in the protocol); the failed-encryption rejection cannot be provoked; negative expectations (no ack yet) use a 3 ms grace period after all expected acks arrived",
+    "rule": "rapid draws RF, min ISR, batch size, OCC and 2-18 steps (publish burst of 1-5, report(replica, fraction of the log), shrink, expand). Non-trivial = the ISR changed while an ALL message was pending, or a burst mixed ack policies, or min ISR blocked a commit.",
+    "assumptions": TRUST,
+    "units": [
+        {"name": "C04", "pkg": "server", "test": "TestVerifC04",
+         "quick": {"shards": 8, "checks": 40}, "thorough": {"shards": 16, "checks": 600, "timeout": 3000}},
+    ],
+}
